@@ -186,7 +186,7 @@ Proof.
   assert (HL0 : LinkInv st0).
   { apply (obs_sub_LinkInv st st0); [apply obs_sub_eq; reflexivity| |exact HL]. unfold st0. rsimpl. rewrite lenN_setN. lia. }
   assert (HDI0 : DI st0 [] tr).
-  { destruct HDI as [D1 D2 D3 D4]. constructor; try assumption.
+  { destruct HDI as [D1 D2 D3 D4 D5 D6 D7]. constructor; try assumption.
     intros id0 k f i a Hin. specialize (D1 _ _ _ _ _ Hin). unfold st0. rsimpl. now rewrite lenN_setN. }
   assert (Hpk : Forall packet_wf (lk_in b)).
   { exact (Forall_nthN (fun b => Forall packet_wf (lk_in b)) _ _ _ (ri_pkts _ _ HI) Hb). }
